@@ -49,7 +49,13 @@ F == { <<37,89,45,37,109,45,37,100,32,37,72,58,37,77,58,37,83>>,             \* 
        <<37,101,45,37,98,45,37,89,32,37,83,58,37,77,58,37,72>>,               \* %e-%b-%Y %S:%M:%H
        <<37,72,37,77,37,83,32,37,100,47,37,109,47,37,89>> }                   \* %H%M%S %d/%m/%Y
 Sods == {0, 86399, (((z - MinDay) % 86400) * 7919) % 86400}
-RoundTrip == \A f \in F : \A sod \in Sods : Parse(Format(z, sod, f), f) = [ok |-> TRUE, z |-> z, sod |-> sod]
+\* (two more formats carry an offset and a fraction: the text is then formatted with them and must be read back with them)
+FZ == <<37,89,45,37,109,45,37,100,84,37,72,58,37,77,58,37,83,37,46,51,102,32,37,122>>            \* %Y-%m-%dT%H:%M:%S%.3f %z
+Zn1 == [neg |-> TRUE, h |-> 9, m |-> 30]
+Fr1 == <<51, 54, 48, 48, 48, 48, 48, 48, 48>>
+RoundTrip == /\ \A f \in F : \A sod \in Sods : LET p == Parse(Format(z, sod, f), f) IN p.ok /\ p.z = z /\ p.sod = sod /\ ~p.zoned
+             /\ LET x == [secs |-> <<>>, zn |-> Zn1, fr |-> Fr1]
+                    p == Parse(FormatX(z, 49915, FZ, x), FZ) IN p.ok /\ p.z = z /\ p.sod = 49915 /\ p.zoned /\ p.zn = Zn1 /\ p.fr = Fr1 /\ p.frw = 3
 \* (format_time 1701611515.3603675 "%a %b %e %T %Y") starts "Sun Dec  3 13:51:55 2023"
 Doc == Format(19694, 49915, <<37,97,32,37,98,32,37,101,32,37,84,32,37,89>>) = <<83,117,110,32,68,101,99,32,32,51,32,49,51,58,53,49,58,53,53,32,50,48,50,51>>
 ASSUME Doc
